@@ -1,15 +1,18 @@
 META = {
     "assumptions": ["allocation failure out of scope (--no-malloc-may-fail)",
-                    "the kernel refuses write/pwrite/fallocate/ftruncate/BLKDISCARD on a descriptor opened O_RDONLY (POSIX; not modelled)",
+                    "the kernel refuses write/pwrite/fallocate/ftruncate/BLKDISCARD on a descriptor opened O_RDONLY with EBADF and no effect "
+                    "(POSIX; this is what harness/C13/rofile.h models -- trusted environment)",
                     "handles are built by the harness: 1 group, 1 KiB blocks, 16 inodes; EXT2_FLAG_RW is the only flag bit forced (to 0)"],
     "outside": [
         "the tools' main() functions: option -> flag mapping (e2fsck -n -> E2F_OPT_READONLY -> no EXT2_FLAG_RW; debugfs without -w; "
         "dumpe2fs; tune2fs -l; resize2fs -P; e2image; e2freefrag; e2undo -n; mke2fs -n), e2fsck's skip-journal-recovery and "
         "release_orphan_inodes decisions -- this is where the property mostly lives; C13 here is a library-level slice",
-        "ext2fs_close2()/ext2fs_flush2() on a read-only handle WITH EXT2_FLAG_DIRTY set: closefs.c does not test EXT2_FLAG_RW, the "
-        "superblock/descriptor writes are handed to the io manager and only fail at the O_RDONLY descriptor (EBADF)",
-        "unix_io operations on a channel opened without IO_FLAG_RW (write_blk64/write_byte/zeroout/discard/flush from an arbitrary "
-        "cache state end in EBADF and leave the device unchanged): relies on the kernel, not encoded; cache semantics are C17",
+        "ext2fs_close2() of a read-only DIRTY handle (closefs.c does not test EXT2_FLAG_RW): decided in close_dirty only for a plain "
+        "one-group geometry, empty cache and fs->orig_super == NULL; the shadow-superblock route of write_primary_superblock "
+        "(word diff + write_byte, what a handle opened from the primary superblock takes) is encoded (-DORIG) but unsolved in 150 s -- "
+        "its device-level step (write_byte on a read-only channel) is unix_ro OP=3",
+        "unix_ro: block size 2, 6 blocks, scaled cache (4 entries); multi-block cached writes and the write_error-handler variants in "
+        "thorough tier only; bounce-buffer (O_DIRECT / FORCE_BOUNCE) write path, IO_FLAG_NOCACHE channels, data->offset != 0",
         "ext2fs_open2 after the channel is open (arbitrary superblock; backup-superblock descriptor fix-ups): encoded, not solvable in 10 GB",
         "ext2fs_write_inode2 with bufsize < inode size (the read-modify-write prefix through ext2fs_read_inode2): query > 10 GB",
         "other writers that rely on the caller or on the descriptor instead of testing EXT2_FLAG_RW (ext2fs_flush2, io_channel_write_blk64 "
@@ -119,8 +122,9 @@ HARNESSES = [
          extra_src=["lib/ext2fs/closefs.c", "lib/ext2fs/blknum.c"],
          funcs=["ext2fs_close2", "ext2fs_flush2", "write_primary_superblock", "unix_open", "unix_write_blk64",
                 "flush_cached_blocks", "raw_write_blk"],
-         configs=[{"E2FSPROGS_VERIF_CACHE_SIZE": 4, "E2FSPROGS_VERIF_WRITE_DIRECT_SIZE": 2},
-                  {"E2FSPROGS_VERIF_CACHE_SIZE": 4, "E2FSPROGS_VERIF_WRITE_DIRECT_SIZE": 2, "ORIG": None}],
+         # -DORIG=0/1 (shadow superblock present: write_primary_superblock's word-diff + write_byte route) is encoded in
+         # close_dirty.c but does not finish in 150 s (512x512 data-dependent unwinding): not registered
+         configs=[{"E2FSPROGS_VERIF_CACHE_SIZE": 4, "E2FSPROGS_VERIF_WRITE_DIRECT_SIZE": 2}],
          unwind=6, unwindset=["main.%d:514" % i for i in range(6)] +
                              ["strlen.0:3", "strcpy.0:3", "alloc_cache.0:9", "free_cache.0:9",
                               "write_primary_superblock.0:514", "write_primary_superblock.1:514",
@@ -128,14 +132,18 @@ HARNESSES = [
                               "test_root.0:6", "raw_write_blk.0:2", "raw_write_blk.1:2"],
          backends=["default", "kissat"],
          bound="1 group, 1 KiB blocks, plain features (sparse_super only), scaled cache geometry (4 entries), cache empty before close; "
-               "fs->flags (minus RW, DIRTY forced on), close flags, s_state symbolic; shadow superblock absent, equal, or differing in one symbolic word"),
+               "fs->flags (minus RW, DIRTY forced on), close flags, s_state symbolic; no shadow superblock (fs->orig_super NULL: whole-superblock write)"),
 ]
 MANIFEST = {
     "text": "Library-level slice, bounded-exhaustive over the flag word: for every value of fs->flags without EXT2_FLAG_RW the "
             "encoded entry points (inode write, bitmap write, MMP start/stop/update/clear, close of a clean handle) reach no "
             "modifying io-manager call and leave the in-core dirty state alone; ext2fs_open2 never passes IO_FLAG_RW without "
             "EXT2_FLAG_RW; unix_io opens O_RDWR exactly with IO_FLAG_RW (all 2^32 io flag words); e2fsck_journal_release does "
-            "not write the journal superblock under E2F_OPT_READONLY. The tools' own option handling is outside.",
+            "not write the journal superblock under E2F_OPT_READONLY. A unix_io channel whose descriptor came from the real open path "
+            "without IO_FLAG_RW leaves the device byte array unchanged for one arbitrary operation from any valid cache state and "
+            "reports the refusal; ext2fs_close2 of a read-only DIRTY handle over that channel fails without modifying the device. "
+            "The tools' own option handling is outside.",
     "note": "Trusted: CBMC's C semantics, the counting io-manager stub, POSIX refusal of writes on O_RDONLY descriptors. "
-            "ext2fs_close2 does not itself test EXT2_FLAG_RW before flushing a DIRTY handle (see outside).",
+            "ext2fs_close2 does not itself test EXT2_FLAG_RW before flushing a DIRTY handle: the barrier is the O_RDONLY descriptor "
+            "(close_dirty, unix_ro, unix_open_mode, open_ro).",
 }
